@@ -60,6 +60,16 @@ let () =
     | _ -> "badargs")
 
 let () =
+  (* ringwrap <ring contents> <lapSize> <src> <cap> <fastloop 0|1>: Model/DecRingWrap.v, the wrap call of a ring buffer
+     (LZ4_decompress_safe_forceExtDict with the dictionary = the finished lap at the destination address, one memory)
+     -> ret ok|OOB len md5 of the whole ring afterwards *)
+  reg "ringwrap" (function [ring; lap; src; cap; fl] ->
+      let ring = bytes_of_hex ring and src = bytes_of_hex src in
+      let ((r, m), ok) = decompress_ring_wrap (fl = "1") (mem_of_list (z 0) src) (len src) (zs cap) (zs lap) (mem_of_list (z 0) ring) in
+      Printf.sprintf "%s %s %s" (zstr r) (if ok then "ok" else "OOB") (show_bytes (load_list m (z 0) (len ring)))
+    | _ -> "badargs")
+
+let () =
   (* semout <hist> <blk> <r>: the specified output of Proofs/DecConversePartialTop.v (sequence semantics of an
      arbitrary input, truncated where the input ends) -> total length, md5 of its first r bytes *)
   reg "semout" (function [h; b; r] ->
